@@ -621,7 +621,8 @@ class Interp:
             x = m.group(1)
             if at.get(f'truthy({x})') is True:
                 return False
-            if re.match(r'(min|max|len|sum|str|repr|list|dict|set|tuple|sorted|bool|int|float|abs|round)\(', x) and x.endswith(')'):
+            mb = re.match(r'(min|max|len|sum|str|repr|list|dict|set|tuple|sorted|bool|int|float|abs|round)\(', x)
+            if mb and _closes_at_end(x, mb.end() - 1):
                 return False       # results of these builtins are never None
             for kk, vv in at.items():
                 if vv is True and (kk.startswith(f'isinstance({x}, ') or kk.startswith(f'eq({x}, ')):
@@ -1209,6 +1210,19 @@ class Interp:
                 p.env[n.name] = sym(f'{subj.key}~*{n.name}')
             elif isinstance(n, ast.MatchMapping) and n.rest:
                 p.env[n.rest] = sym(f'{subj.key}~**{n.rest}')
+
+
+def _closes_at_end(s: str, open_idx: int) -> bool:
+    """Is the parenthesis opened at ``open_idx`` closed by the very last character of ``s``?"""
+    depth = 0
+    for i in range(open_idx, len(s)):
+        if s[i] == '(':
+            depth += 1
+        elif s[i] == ')':
+            depth -= 1
+            if depth == 0:
+                return i == len(s) - 1
+    return False
 
 
 def _body(g: FuncInfo) -> list:
